@@ -57,9 +57,9 @@ type Opts struct {
 	Globals       bool    // use a script global variable G
 	Modules       int     // number of source modules to create and import
 	BuiltinMods   []string
-	NoTopReturn   bool // C10: never return at top level except the final statement
-	TailRec       bool // include tail-recursive helpers with large depth
-	DeepRecursion int  // bound for non-tail recursion
+	NoTopReturn   bool    // C10: never return at top level except the final statement
+	TailRec       bool    // include tail-recursive helpers with large depth
+	DeepRecursion int     // bound for non-tail recursion
 	ImportProb    float64 // probability that a statement is an import use (C12)
 }
 
